@@ -13,6 +13,8 @@ wt, name, pid = sys.argv[1], sys.argv[2], sys.argv[3]
 seed = os.path.join(wt, "SEED")
 dst = os.path.join("/verif/seeded", name)
 env = dict(os.environ, CARGO_NET_OFFLINE="true")
+# the checks run against the PATCHED /repo here: their evidence files must not replace the committed ones
+env.setdefault("LP_EVIDENCE_DIR", "/var/tmp/seed_eval_evidence")
 
 def sh(cmd, cwd, timeout=3000):
     p = subprocess.run(cmd, shell=True, cwd=cwd, stdout=subprocess.PIPE, stderr=subprocess.STDOUT, text=True, env=env, timeout=timeout)
